@@ -80,7 +80,7 @@ where
 }
 
 /// every witness names the scenario it came from (what `--replay` re-runs)
-fn tag_scenario(o: &mut Outcome, i: u64) {
+pub fn tag_scenario(o: &mut Outcome, i: u64) {
     for v in &mut o.violations {
         match &mut v.replay {
             serde_json::Value::Object(m) => {
